@@ -14,6 +14,7 @@
 //     in between did not change the relative order of surviving entries, has shown every entry that
 //     was present throughout exactly once and no entry twice.
 // Header of a case:  <P|K|V><0|1>,<ntables>,<niters>|ops   (1 = colliding hash functor)
+//                    <p|k|v><0|1>,...|ops   = the same with an owning key and value type (struct Own: a move empties its source)
 //                    B<P|K|V><0|1>,...|ops  = big-population case: printed as "k big", oracle only.
 //                    S<0|1|2>,<size>|ops    = storage case (Hashtable<int,int> with hash = key / key%3 / key*2654435761):
 //                                             after every op the whole slot array is printed: hash, key, value, BUCKET_PREV,
@@ -39,12 +40,37 @@
 
 using namespace muscle;
 
+
+// An owning key / value type whose move really empties its source: the integer lives on the heap, a move
+// steals the allocation and leaves the source reading as a poison value.  Every comparison goes through
+// the conversion to int.  (Header letters p/k/v and s0..s2 select the tables instantiated with it.)
+struct Own
+{
+   int * p; bool gone;
+   static const int POISON = -987654321;
+   Own() : p(NULL), gone(false) {}
+   Own(int v) : p(new int(v)), gone(false) {}
+   Own(const Own & o) : p(o.p ? new int(*o.p) : NULL), gone(o.gone) {}
+   Own(Own && o) : p(o.p), gone(o.gone) {o.p = NULL; o.gone = true;}
+   ~Own() {delete p;}
+   Own & operator=(const Own & o) {if (this != &o) {int * np = o.p ? new int(*o.p) : NULL; delete p; p = np; gone = o.gone;} return *this;}
+   Own & operator=(Own && o) {if (this != &o) {delete p; p = o.p; gone = o.gone; o.p = NULL; o.gone = true;} return *this;}
+   operator int() const {return gone ? POISON : (p ? *p : 0);}
+};
+
 struct CollidingHF   // three hash codes only: long bucket chains, entries of different keys share everything
 {
    uint32 operator()(const int & k) const {return ((uint32)k)%3;}
    bool AreKeysEqual(const int & a, const int & b) const {return a==b;}
+   uint32 operator()(const Own & k) const {return ((uint32)(int)k)%3;}
+   bool AreKeysEqual(const Own & a, const Own & b) const {return ((int)a)==((int)b);}
 };
 typedef PODHashFunctor<int> NormalHF;
+struct NormalOwnHF
+{
+   uint32 operator()(const Own & k) const {const int i = k; return PODHashFunctor<int>()(i);}
+   bool AreKeysEqual(const Own & a, const Own & b) const {return ((int)a)==((int)b);}
+};
 
 static std::vector<std::string> split(const std::string & s, char c)
 {
@@ -58,15 +84,15 @@ typedef std::pair<int,int> KV;
 typedef std::vector<KV> Ideal;
 
 // ---- class-specific pieces (the plain Hashtable has no auto-sort, Reposition, ...)
-template<class HF> static bool GetAuto(const Hashtable<int,int,HF> &) {return true;}
-template<class HF> static void SetAuto(Hashtable<int,int,HF> &, bool, bool) {}
-template<class HF> static int  Repos(Hashtable<int,int,HF> & t, int k) {return t.ContainsKey(k) ? 0 : 1;}
-template<class HF> static bool GetAuto(const OrderedKeysHashtable<int,int,CompareFunctor<int>,HF> & t) {return t.GetAutoSortEnabled();}
-template<class HF> static void SetAuto(OrderedKeysHashtable<int,int,CompareFunctor<int>,HF> & t, bool e, bool n) {t.SetAutoSortEnabled(e, n);}
-template<class HF> static int  Repos(OrderedKeysHashtable<int,int,CompareFunctor<int>,HF> & t, int k) {return t.Reposition(k).IsOK() ? 0 : 1;}
-template<class HF> static bool GetAuto(const OrderedValuesHashtable<int,int,CompareFunctor<int>,HF> & t) {return t.GetAutoSortEnabled();}
-template<class HF> static void SetAuto(OrderedValuesHashtable<int,int,CompareFunctor<int>,HF> & t, bool e, bool n) {t.SetAutoSortEnabled(e, n);}
-template<class HF> static int  Repos(OrderedValuesHashtable<int,int,CompareFunctor<int>,HF> & t, int k) {return t.Reposition(k).IsOK() ? 0 : 1;}
+template<class K, class V, class HF> static bool GetAuto(const Hashtable<K,V,HF> &) {return true;}
+template<class K, class V, class HF> static void SetAuto(Hashtable<K,V,HF> &, bool, bool) {}
+template<class K, class V, class HF> static int  Repos(Hashtable<K,V,HF> & t, int k) {return t.ContainsKey(K(k)) ? 0 : 1;}
+template<class K, class V, class HF> static bool GetAuto(const OrderedKeysHashtable<K,V,CompareFunctor<K>,HF> & t) {return t.GetAutoSortEnabled();}
+template<class K, class V, class HF> static void SetAuto(OrderedKeysHashtable<K,V,CompareFunctor<K>,HF> & t, bool e, bool n) {t.SetAutoSortEnabled(e, n);}
+template<class K, class V, class HF> static int  Repos(OrderedKeysHashtable<K,V,CompareFunctor<K>,HF> & t, int k) {return t.Reposition(K(k)).IsOK() ? 0 : 1;}
+template<class K, class V, class HF> static bool GetAuto(const OrderedValuesHashtable<K,V,CompareFunctor<V>,HF> & t) {return t.GetAutoSortEnabled();}
+template<class K, class V, class HF> static void SetAuto(OrderedValuesHashtable<K,V,CompareFunctor<V>,HF> & t, bool e, bool n) {t.SetAutoSortEnabled(e, n);}
+template<class K, class V, class HF> static int  Repos(OrderedValuesHashtable<K,V,CompareFunctor<V>,HF> & t, int k) {return t.Reposition(K(k)).IsOK() ? 0 : 1;}
 
 static int st(status_t s)
 {
@@ -78,10 +104,10 @@ static int st(status_t s)
 
 static int ideal_find(const Ideal & v, int k) {for (size_t i=0; i<v.size(); i++) if (v[i].first == k) return (int)i; return -1;}
 
-template<class T, class HF> struct Runner
+template<class T, class HF, class KT, class VT> struct Runner
 {
-   typedef HashtableIterator<int,int,HF> IterT;
-   typedef HashtableBase<int,int,HF> BaseT;
+   typedef HashtableIterator<KT,VT,HF> IterT;
+   typedef HashtableBase<KT,VT,HF> BaseT;
    typedef typename BaseT::HashtableEntryBase EntryT;
 
    char var; bool big; int NT, NI; int caseNo;
@@ -249,9 +275,9 @@ template<class T, class HF> struct Runner
       }
       for (size_t i=0; i<f.size(); i++)
       {
-         int v = 0;
-         if ((!x.ContainsKey(f[i].first))||(x.GetValue(f[i].first, v).IsError())||(v != f[i].second)) {fail("lookup of an iterated key fails", n, opname); return;}
-         if ((f.size() <= 64)&&(x.IndexOfKey(f[i].first) != (int32)i)) {fail("IndexOfKey disagrees with the iteration order", n, opname); return;}
+         VT v(0);
+         if ((!x.ContainsKey(KT(f[i].first)))||(x.GetValue(KT(f[i].first), v).IsError())||(v != f[i].second)) {fail("lookup of an iterated key fails", n, opname); return;}
+         if ((f.size() <= 64)&&(x.IndexOfKey(KT(f[i].first)) != (int32)i)) {fail("IndexOfKey disagrees with the iteration order", n, opname); return;}
       }
    }
 
@@ -349,6 +375,13 @@ template<class T, class HF> struct Runner
          Trav & tr = trav[i];
          const bool had = tr.hasShown; const int ok = tr.shownKey, ov = tr.shownVal;
          note_shown(i);
+         if ((had)&&(tr.hasShown)&&(ok == tr.shownKey)&&(ov != tr.shownVal))
+         {
+            // same key, other value: only a value that some table now holds for that key is acceptable
+            bool now = false;
+            for (int t=0; t<NT; t++) {const int j = ideal_find(ideal[t], tr.shownKey); if ((j >= 0)&&(ideal[t][j].second == tr.shownVal)) now = true;}
+            if (!now) {fail("a mutation changed the value an iterator shows for its unchanged key to a value that no table holds", n, opname); return;}
+         }
          if ((had == tr.hasShown)&&((!had)||(ok == tr.shownKey))) continue;
          if (!tr.hasShown) {fail("a mutation made an iterator lose its current pair", n, opname); return;}
          bool wasThere = false;
@@ -380,6 +413,8 @@ template<class T, class HF> struct Runner
       const std::string & c = a[0];
       #define I(k) atoi(a[k].c_str())
       #define U(k) ((uint32)strtoul(a[k].c_str(), NULL, 10))
+      #define KK(k) KT(I(k))
+      #define VV(k) VT(I(k))
       seq++;
       std::ostringstream r;     // result text
       std::vector<Ideal> before;
@@ -389,40 +424,40 @@ template<class T, class HF> struct Runner
       int t = -1, u = -1;
       bool mpLike = false;
 
-      if (c == "put") {t=I(1); int prev=0; bool rep=false; const status_t ps = tab[t]->Put(I(2), I(3), prev, &rep); if (rep) r << "v" << prev; else r << "none"; id_put(t, I(2), I(3));
+      if (c == "put") {t=I(1); VT prev(0); bool rep=false; const status_t ps = tab[t]->Put(KK(2), VV(3), prev, &rep); if (rep) r << "v" << prev; else r << "none"; id_put(t, I(2), I(3));
                        if (ps.IsError()) fail("Put reports an error on a table that must behave as an ideal map", n, c);}
-      else if (c == "pia") {t=I(1); int * p = tab[t]->PutIfNotAlreadyPresent(I(2), I(3)); r << (p ? "b1" : "b0"); if (ideal_find(ideal[t], I(2)) < 0) id_put(t, I(2), I(3));}
-      else if (c == "gop") {t=I(1); int * p = tab[t]->GetOrPut(I(2), I(3)); if (p) r << "v" << *p; else r << "none"; if (ideal_find(ideal[t], I(2)) < 0) id_put(t, I(2), I(3));}
-      else if (c == "paf") {t=I(1); r << "s" << st(tab[t]->PutAtFront(I(2), I(3))); id_put(t, I(2), I(3)); id_move(t, I(2), 0);}
-      else if (c == "pab") {t=I(1); r << "s" << st(tab[t]->PutAtBack(I(2), I(3))); id_put(t, I(2), I(3)); id_move(t, I(2), ideal[t].size());}
-      else if (c == "pbf") {t=I(1); r << "s" << st(tab[t]->PutBefore(I(2), I(3), I(4))); id_put(t, I(2), I(4)); id_move_rel(t, I(2), I(3), false);}
-      else if (c == "pbh") {t=I(1); r << "s" << st(tab[t]->PutBehind(I(2), I(3), I(4))); id_put(t, I(2), I(4)); id_move_rel(t, I(2), I(3), true);}
-      else if (c == "pap") {t=I(1); r << "s" << st(tab[t]->PutAtPosition(I(2), U(3), I(4))); id_put(t, I(2), I(4)); id_move(t, I(2), U(3)); mpLike = true;}
-      else if (c == "get") {t=I(1); int v=0; if (tab[t]->GetValue(I(2), v).IsOK()) r << "v" << v; else r << "none";
-                            const int j = ideal_find(ideal[t], I(2)); const int * p = tab[t]->Get(I(2));
+      else if (c == "pia") {t=I(1); VT * p = tab[t]->PutIfNotAlreadyPresent(KK(2), VV(3)); r << (p ? "b1" : "b0"); if (ideal_find(ideal[t], I(2)) < 0) id_put(t, I(2), I(3));}
+      else if (c == "gop") {t=I(1); VT * p = tab[t]->GetOrPut(KK(2), VV(3)); if (p) r << "v" << *p; else r << "none"; if (ideal_find(ideal[t], I(2)) < 0) id_put(t, I(2), I(3));}
+      else if (c == "paf") {t=I(1); r << "s" << st(tab[t]->PutAtFront(KK(2), VV(3))); id_put(t, I(2), I(3)); id_move(t, I(2), 0);}
+      else if (c == "pab") {t=I(1); r << "s" << st(tab[t]->PutAtBack(KK(2), VV(3))); id_put(t, I(2), I(3)); id_move(t, I(2), ideal[t].size());}
+      else if (c == "pbf") {t=I(1); r << "s" << st(tab[t]->PutBefore(KK(2), KK(3), VV(4))); id_put(t, I(2), I(4)); id_move_rel(t, I(2), I(3), false);}
+      else if (c == "pbh") {t=I(1); r << "s" << st(tab[t]->PutBehind(KK(2), KK(3), VV(4))); id_put(t, I(2), I(4)); id_move_rel(t, I(2), I(3), true);}
+      else if (c == "pap") {t=I(1); r << "s" << st(tab[t]->PutAtPosition(KK(2), U(3), VV(4))); id_put(t, I(2), I(4)); id_move(t, I(2), U(3)); mpLike = true;}
+      else if (c == "get") {t=I(1); VT v(0); if (tab[t]->GetValue(KK(2), v).IsOK()) r << "v" << v; else r << "none";
+                            const int j = ideal_find(ideal[t], I(2)); const VT * p = tab[t]->Get(KK(2));
                             if ((j >= 0) != (p != NULL)) fail("Get disagrees with the ideal map", n, c); else if ((p)&&(*p != ideal[t][j].second)) fail("Get returns a wrong value", n, c);}
-      else if (c == "has") {t=I(1); const bool b = tab[t]->ContainsKey(I(2)); r << (b ? "b1" : "b0"); if (b != (ideal_find(ideal[t], I(2)) >= 0)) fail("ContainsKey disagrees with the ideal map", n, c);}
-      else if (c == "iok") {t=I(1); const int32 x = tab[t]->IndexOfKey(I(2)); r << "i" << x; if ((var == 'P')&&(x != ideal_find(ideal[t], I(2)))) fail("IndexOfKey disagrees with the ideal map", n, c);}
-      else if (c == "kat") {t=I(1); int k=0; if (tab[t]->GetKeyAt(U(2), k).IsOK()) r << "v" << k; else r << "none";
-                            if (var == 'P') {const bool in = (U(2) < ideal[t].size()); const int * p = tab[t]->GetKeyAt(U(2)); if ((in != (p != NULL))||((p)&&(*p != ideal[t][U(2)].first))) fail("GetKeyAt disagrees with the ideal map", n, c);}}
-      else if (c == "vat") {t=I(1); int v=0; if (tab[t]->GetValueAt(U(2), v).IsOK()) r << "v" << v; else r << "none";
-                            if (var == 'P') {const bool in = (U(2) < ideal[t].size()); const int * p = tab[t]->GetValueAt(U(2)); if ((in != (p != NULL))||((p)&&(*p != ideal[t][U(2)].second))) fail("GetValueAt disagrees with the ideal map", n, c);}}
-      else if (c == "fk") {t=I(1); const int * p = tab[t]->GetFirstKey(); if (p) r << "v" << *p; else r << "none";}
-      else if (c == "lk") {t=I(1); const int * p = tab[t]->GetLastKey(); if (p) r << "v" << *p; else r << "none";}
-      else if (c == "kb") {t=I(1); const int * p = tab[t]->GetKeyBefore(I(2)); if (p) r << "v" << *p; else r << "none";}
-      else if (c == "ka") {t=I(1); const int * p = tab[t]->GetKeyAfter(I(2)); if (p) r << "v" << *p; else r << "none";}
-      else if (c == "iov") {t=I(1); r << "i" << tab[t]->IndexOfValue(I(2), I(3) != 0);}
+      else if (c == "has") {t=I(1); const bool b = tab[t]->ContainsKey(KK(2)); r << (b ? "b1" : "b0"); if (b != (ideal_find(ideal[t], I(2)) >= 0)) fail("ContainsKey disagrees with the ideal map", n, c);}
+      else if (c == "iok") {t=I(1); const int32 x = tab[t]->IndexOfKey(KK(2)); r << "i" << x; if ((var == 'P')&&(x != ideal_find(ideal[t], I(2)))) fail("IndexOfKey disagrees with the ideal map", n, c);}
+      else if (c == "kat") {t=I(1); KT k(0); if (tab[t]->GetKeyAt(U(2), k).IsOK()) r << "v" << k; else r << "none";
+                            if (var == 'P') {const bool in = (U(2) < ideal[t].size()); const KT * p = tab[t]->GetKeyAt(U(2)); if ((in != (p != NULL))||((p)&&(*p != ideal[t][U(2)].first))) fail("GetKeyAt disagrees with the ideal map", n, c);}}
+      else if (c == "vat") {t=I(1); VT v(0); if (tab[t]->GetValueAt(U(2), v).IsOK()) r << "v" << v; else r << "none";
+                            if (var == 'P') {const bool in = (U(2) < ideal[t].size()); const VT * p = tab[t]->GetValueAt(U(2)); if ((in != (p != NULL))||((p)&&(*p != ideal[t][U(2)].second))) fail("GetValueAt disagrees with the ideal map", n, c);}}
+      else if (c == "fk") {t=I(1); const KT * p = tab[t]->GetFirstKey(); if (p) r << "v" << *p; else r << "none";}
+      else if (c == "lk") {t=I(1); const KT * p = tab[t]->GetLastKey(); if (p) r << "v" << *p; else r << "none";}
+      else if (c == "kb") {t=I(1); const KT * p = tab[t]->GetKeyBefore(KK(2)); if (p) r << "v" << *p; else r << "none";}
+      else if (c == "ka") {t=I(1); const KT * p = tab[t]->GetKeyAfter(KK(2)); if (p) r << "v" << *p; else r << "none";}
+      else if (c == "iov") {t=I(1); r << "i" << tab[t]->IndexOfValue(VV(2), I(3) != 0);}
       else if (c == "num") {t=I(1); r << "n" << tab[t]->GetNumItems();}
-      else if (c == "rm")  {t=I(1); int v=0; if (tab[t]->Remove(I(2), v).IsOK()) r << "v" << v; else r << "none"; id_remove(t, I(2));}
-      else if (c == "rf")  {t=I(1); int k=0, v=0; if (tab[t]->RemoveFirst(k, v).IsOK()) r << "kv" << k << "=" << v; else r << "none"; if (!ideal[t].empty()) id_remove(t, ideal[t][0].first);}
-      else if (c == "rl")  {t=I(1); int k=0, v=0; if (tab[t]->RemoveLast(k, v).IsOK()) r << "kv" << k << "=" << v; else r << "none"; if (!ideal[t].empty()) id_remove(t, ideal[t].back().first);}
-      else if (c == "mf")  {t=I(1); r << "s" << st(tab[t]->MoveToFront(I(2))); id_move(t, I(2), 0);}
-      else if (c == "mb")  {t=I(1); r << "s" << st(tab[t]->MoveToBack(I(2))); id_move(t, I(2), ideal[t].size());}
-      else if (c == "mbf") {t=I(1); r << "s" << st(tab[t]->MoveToBefore(I(2), I(3))); id_move_rel(t, I(2), I(3), false);}
-      else if (c == "mbh") {t=I(1); r << "s" << st(tab[t]->MoveToBehind(I(2), I(3))); id_move_rel(t, I(2), I(3), true);}
-      else if (c == "mp")  {t=I(1); r << "s" << st(tab[t]->MoveToPosition(I(2), U(3))); id_move(t, I(2), U(3)); mpLike = true;}
-      else if (c == "gmf") {t=I(1); int v=0; if (tab[t]->GetAndMoveToFront(I(2), v).IsOK()) r << "v" << v; else r << "none"; id_move(t, I(2), 0);}
-      else if (c == "gmb") {t=I(1); int v=0; if (tab[t]->GetAndMoveToBack(I(2), v).IsOK()) r << "v" << v; else r << "none"; id_move(t, I(2), ideal[t].size());}
+      else if (c == "rm")  {t=I(1); VT v(0); if (tab[t]->Remove(KK(2), v).IsOK()) r << "v" << v; else r << "none"; id_remove(t, I(2));}
+      else if (c == "rf")  {t=I(1); KT k(0); VT v(0); if (tab[t]->RemoveFirst(k, v).IsOK()) r << "kv" << k << "=" << v; else r << "none"; if (!ideal[t].empty()) id_remove(t, ideal[t][0].first);}
+      else if (c == "rl")  {t=I(1); KT k(0); VT v(0); if (tab[t]->RemoveLast(k, v).IsOK()) r << "kv" << k << "=" << v; else r << "none"; if (!ideal[t].empty()) id_remove(t, ideal[t].back().first);}
+      else if (c == "mf")  {t=I(1); r << "s" << st(tab[t]->MoveToFront(KK(2))); id_move(t, I(2), 0);}
+      else if (c == "mb")  {t=I(1); r << "s" << st(tab[t]->MoveToBack(KK(2))); id_move(t, I(2), ideal[t].size());}
+      else if (c == "mbf") {t=I(1); r << "s" << st(tab[t]->MoveToBefore(KK(2), KK(3))); id_move_rel(t, I(2), I(3), false);}
+      else if (c == "mbh") {t=I(1); r << "s" << st(tab[t]->MoveToBehind(KK(2), KK(3))); id_move_rel(t, I(2), I(3), true);}
+      else if (c == "mp")  {t=I(1); r << "s" << st(tab[t]->MoveToPosition(KK(2), U(3))); id_move(t, I(2), U(3)); mpLike = true;}
+      else if (c == "gmf") {t=I(1); VT v(0); if (tab[t]->GetAndMoveToFront(KK(2), v).IsOK()) r << "v" << v; else r << "none"; id_move(t, I(2), 0);}
+      else if (c == "gmb") {t=I(1); VT v(0); if (tab[t]->GetAndMoveToBack(KK(2), v).IsOK()) r << "v" << v; else r << "none"; id_move(t, I(2), ideal[t].size());}
       else if (c == "sk")  {t=I(1); tab[t]->SortByKey(); r << "-"; std::stable_sort(ideal[t].begin(), ideal[t].end(), key_less); if (var == 'K') sortedExp[t] = true; else if (var == 'V') sortedExp[t] = false;}
       else if (c == "sv")  {t=I(1); tab[t]->SortByValue(); r << "-"; std::stable_sort(ideal[t].begin(), ideal[t].end(), val_less); if (var == 'V') sortedExp[t] = true; else if (var == 'K') sortedExp[t] = false;}
       else if (c == "so")  {t=I(1); tab[t]->Sort(); r << "-"; if (var != 'P') sortedExp[t] = true;}
@@ -476,13 +511,13 @@ template<class T, class HF> struct Runner
       }
       else if (c == "mtt")
       {
-         t=I(1); u=I(2); r << "s" << st(tab[t]->MoveToTable(I(3), *tab[u]));
+         t=I(1); u=I(2); r << "s" << st(tab[t]->MoveToTable(KK(3), *tab[u]));
          const int j = ideal_find(ideal[t], I(3));
          if ((j >= 0)&&(t != u)) {const int v = ideal[t][j].second; id_put(u, I(3), v); id_remove(t, I(3));}
       }
       else if (c == "ctt")
       {
-         t=I(1); u=I(2); r << "s" << st(tab[t]->CopyToTable(I(3), *tab[u]));
+         t=I(1); u=I(2); r << "s" << st(tab[t]->CopyToTable(KK(3), *tab[u]));
          const int j = ideal_find(ideal[t], I(3));
          if ((j >= 0)&&(t != u)) id_put(u, I(3), ideal[t][j].second);
       }
@@ -529,7 +564,7 @@ template<class T, class HF> struct Runner
          const bool bw = (c == "in") ? (I(3) != 0) : (I(4) != 0);
          delete it[i]; it[i] = NULL;
          if (c == "in") it[i] = new IterT(*tab[t], bw ? HTIT_FLAG_BACKWARDS : 0);
-                   else it[i] = new IterT(*tab[t], I(3), bw ? HTIT_FLAG_BACKWARDS : 0);
+                   else it[i] = new IterT(*tab[t], KK(3), bw ? HTIT_FLAG_BACKWARDS : 0);
          start_trav(i, t, bw, c == "in");
          if ((c == "ia")&&(it[i]->HasData())&&(it[i]->GetKey() != I(3))) fail("GetIteratorAt does not start at the requested key", n, c);
          if ((c == "ia")&&(it[i]->HasData() != (ideal_find(ideal[t], I(3)) >= 0))) fail("GetIteratorAt disagrees with the ideal map", n, c);
@@ -664,11 +699,11 @@ template<class T, class HF> struct Runner
    }
 };
 
-template<class T, class HF> static void run_case(int k, char var, bool big, int nt, int ni, const std::string & body)
+template<class T, class HF, class KT, class VT> static void run_case(int k, char var, bool big, int nt, int ni, const std::string & body)
 {
    std::string out, orc;
    {
-      Runner<T,HF> * r = new Runner<T,HF>(var, big, nt, ni, k);
+      Runner<T,HF,KT,VT> * r = new Runner<T,HF,KT,VT>(var, big, nt, ni, k);
       r->run(body);
       out = r->o.str(); orc = r->orc.str();
       delete r;   // tables first, iterators afterwards
@@ -681,8 +716,10 @@ template<class T, class HF> static void run_case(int k, char var, bool big, int 
 
 // ------------------------------------------------------------------------------------------------
 // storage cases: the slot array itself
-struct IdHF  {uint32 operator()(const int & k) const {return (uint32)k;}               bool AreKeysEqual(const int & a, const int & b) const {return a==b;}};
-struct MulHF {uint32 operator()(const int & k) const {return ((uint32)k)*2654435761u;} bool AreKeysEqual(const int & a, const int & b) const {return a==b;}};
+struct IdHF  {uint32 operator()(const int & k) const {return (uint32)k;}               bool AreKeysEqual(const int & a, const int & b) const {return a==b;}
+              uint32 operator()(const Own & k) const {return (uint32)(int)k;}          bool AreKeysEqual(const Own & a, const Own & b) const {return ((int)a)==((int)b);}};
+struct MulHF {uint32 operator()(const int & k) const {return ((uint32)k)*2654435761u;} bool AreKeysEqual(const int & a, const int & b) const {return a==b;}
+              uint32 operator()(const Own & k) const {return ((uint32)(int)k)*2654435761u;} bool AreKeysEqual(const Own & a, const Own & b) const {return ((int)a)==((int)b);}};
 
 static std::string idx_str(uint32 v) {if (v == MUSCLE_HASHTABLE_INVALID_SLOT_INDEX) return "-"; char b[32]; snprintf(b, sizeof(b), "%u", v); return b;}
 
@@ -712,7 +749,7 @@ template <class T> static std::string dump_store(const T & t)
    return o.str();
 }
 
-template <class T> static void run_store_case(int k, int size, const std::string & body)
+template <class T, class KT, class VT> static void run_store_case(int k, int size, const std::string & body)
 {
    T t;
    if (size > 0) (void) t.EnsureSize((uint32)size);
@@ -728,12 +765,12 @@ template <class T> static void run_store_case(int k, int size, const std::string
       if (a[0] == "sp")
       {
          const int key = atoi(a[1].c_str()), val = atoi(a[2].c_str());
-         r << (t.Put(key, val).IsOK() ? "s0" : "s1"); ideal[key] = val;
+         r << (t.Put(KT(key), VT(val)).IsOK() ? "s0" : "s1"); ideal[key] = val;
       }
       else if (a[0] == "sg")
       {
          const int key = atoi(a[1].c_str());
-         const int * v = t.Get(key);
+         const VT * v = t.Get(KT(key));
          if (v) r << "v" << *v; else r << "none";
          std::map<int,int>::const_iterator it = ideal.find(key);
          if ((v != NULL) != (it != ideal.end()) || (v && (*v != it->second))) {oracle_ok = false; why = "Get disagrees with the ideal map at op " + ops[n];}
@@ -742,7 +779,7 @@ template <class T> static void run_store_case(int k, int size, const std::string
       {
          const int key = atoi(a[1].c_str());
          const bool had = (ideal.erase(key) > 0);
-         const bool ok = t.Remove(key).IsOK();
+         const bool ok = t.Remove(KT(key)).IsOK();
          r << (ok ? "s0" : "s1");
          if (ok != had) {oracle_ok = false; why = "Remove disagrees with the ideal map at op " + ops[n];}
       }
@@ -763,7 +800,7 @@ template <class T> static void run_store_case(int k, int size, const std::string
    // all keys of the ideal map are found with their values, in any order
    for (std::map<int,int>::const_iterator it = ideal.begin(); it != ideal.end(); ++it)
    {
-      const int * v = t.Get(it->first);
+      const VT * v = t.Get(KT(it->first));
       if ((v == NULL)||(*v != it->second)) {oracle_ok = false; why = "final lookup disagrees with the ideal map";}
    }
    printf("%d %s\n", k, out.c_str());
@@ -781,38 +818,64 @@ int main()
       {
          std::string head = line.substr(0, p);
          const std::string body = line.substr(p+1);
-         if ((!head.empty())&&(head[0] == 'S'))
+         if ((!head.empty())&&((head[0] == 'S')||(head[0] == 's')))
          {
+            const bool own = (head[0] == 's');
             std::vector<std::string> sp = split(head, ',');
             const char hm = (sp[0].size() > 1) ? sp[0][1] : '0';
             const int size = (sp.size() > 1) ? atoi(sp[1].c_str()) : 0;
-            if (hm == '1') run_store_case<Hashtable<int,int,CollidingHF> >(k, size, body);
-            else if (hm == '2') run_store_case<Hashtable<int,int,MulHF> >(k, size, body);
-            else run_store_case<Hashtable<int,int,IdHF> >(k, size, body);
+            if (own)
+            {
+               if (hm == '1') run_store_case<Hashtable<Own,Own,CollidingHF>, Own, Own>(k, size, body);
+               else if (hm == '2') run_store_case<Hashtable<Own,Own,MulHF>, Own, Own>(k, size, body);
+               else run_store_case<Hashtable<Own,Own,IdHF>, Own, Own>(k, size, body);
+            }
+            else if (hm == '1') run_store_case<Hashtable<int,int,CollidingHF>, int, int>(k, size, body);
+            else if (hm == '2') run_store_case<Hashtable<int,int,MulHF>, int, int>(k, size, body);
+            else run_store_case<Hashtable<int,int,IdHF>, int, int>(k, size, body);
             k++;
             continue;
          }
          bool big = false;
          if ((!head.empty())&&(head[0] == 'B')) {big = true; head = head.substr(1);}
          std::vector<std::string> hp = split(head, ',');
-         const char var = hp[0][0];
+         const bool own = ((hp[0][0] >= 'a')&&(hp[0][0] <= 'z'));   // lower case: owning key and value type
+         const char var = own ? (char)(hp[0][0]-'a'+'A') : hp[0][0];
          const bool coll = (hp[0].size() > 1)&&(hp[0][1] == '1');
          const int nt = (hp.size() > 1) ? atoi(hp[1].c_str()) : 2;
          const int ni = (hp.size() > 2) ? atoi(hp[2].c_str()) : 4;
-         if (var == 'K')
+         if (own)
          {
-            if (coll) run_case<OrderedKeysHashtable<int,int,CompareFunctor<int>,CollidingHF>, CollidingHF>(k, var, big, nt, ni, body);
-                 else run_case<OrderedKeysHashtable<int,int,CompareFunctor<int>,NormalHF>, NormalHF>(k, var, big, nt, ni, body);
+            if (var == 'K')
+            {
+               if (coll) run_case<OrderedKeysHashtable<Own,Own,CompareFunctor<Own>,CollidingHF>, CollidingHF, Own, Own>(k, var, big, nt, ni, body);
+                    else run_case<OrderedKeysHashtable<Own,Own,CompareFunctor<Own>,NormalOwnHF>, NormalOwnHF, Own, Own>(k, var, big, nt, ni, body);
+            }
+            else if (var == 'V')
+            {
+               if (coll) run_case<OrderedValuesHashtable<Own,Own,CompareFunctor<Own>,CollidingHF>, CollidingHF, Own, Own>(k, var, big, nt, ni, body);
+                    else run_case<OrderedValuesHashtable<Own,Own,CompareFunctor<Own>,NormalOwnHF>, NormalOwnHF, Own, Own>(k, var, big, nt, ni, body);
+            }
+            else
+            {
+               if (coll) run_case<Hashtable<Own,Own,CollidingHF>, CollidingHF, Own, Own>(k, var, big, nt, ni, body);
+                    else run_case<Hashtable<Own,Own,NormalOwnHF>, NormalOwnHF, Own, Own>(k, var, big, nt, ni, body);
+            }
+         }
+         else if (var == 'K')
+         {
+            if (coll) run_case<OrderedKeysHashtable<int,int,CompareFunctor<int>,CollidingHF>, CollidingHF, int, int>(k, var, big, nt, ni, body);
+                 else run_case<OrderedKeysHashtable<int,int,CompareFunctor<int>,NormalHF>, NormalHF, int, int>(k, var, big, nt, ni, body);
          }
          else if (var == 'V')
          {
-            if (coll) run_case<OrderedValuesHashtable<int,int,CompareFunctor<int>,CollidingHF>, CollidingHF>(k, var, big, nt, ni, body);
-                 else run_case<OrderedValuesHashtable<int,int,CompareFunctor<int>,NormalHF>, NormalHF>(k, var, big, nt, ni, body);
+            if (coll) run_case<OrderedValuesHashtable<int,int,CompareFunctor<int>,CollidingHF>, CollidingHF, int, int>(k, var, big, nt, ni, body);
+                 else run_case<OrderedValuesHashtable<int,int,CompareFunctor<int>,NormalHF>, NormalHF, int, int>(k, var, big, nt, ni, body);
          }
          else
          {
-            if (coll) run_case<Hashtable<int,int,CollidingHF>, CollidingHF>(k, var, big, nt, ni, body);
-                 else run_case<Hashtable<int,int,NormalHF>, NormalHF>(k, var, big, nt, ni, body);
+            if (coll) run_case<Hashtable<int,int,CollidingHF>, CollidingHF, int, int>(k, var, big, nt, ni, body);
+                 else run_case<Hashtable<int,int,NormalHF>, NormalHF, int, int>(k, var, big, nt, ni, body);
          }
       }
       k++;
